@@ -1,1 +1,278 @@
-fn main() {}
+//! C09 correspondence harness: drives the real `IdentityRegistry` and the real `SnapTunServer`
+//! (real ana-gotatun client tunnels, as the unit tests of snap-tun/src/server.rs do) through
+//! histories of register / advance / purge / connect / data-in / data-out / tick events and
+//! writes every observation as Coq case files (Sci.Snap.Cases_C09).
+//!
+//! The server reads `Instant::now()` itself; its authorisation object is a wrapper that
+//! ignores the instant it is handed and asks the registry at `base + virtual_time`.
+use std::collections::{HashSet, VecDeque};
+use std::net::SocketAddr;
+use std::sync::atomic::{AtomicU64, Ordering};
+use std::sync::Arc;
+use std::time::{Duration, Instant};
+
+use ana_gotatun::{
+    noise::{Tunn, TunnResult, rate_limiter::RateLimiter},
+    packet::{IpNextProtocol, Packet, WgKind},
+    x25519,
+};
+use snap_control::server::identity_registry::IdentityRegistry;
+use snap_tun::scion_packet::{Scion, ScionHeader};
+use snap_tun::server::{HandleIncomingPacketResult, SnapTunAuthorization, SnapTunServer};
+use vcommon::*;
+use zerocopy::IntoBytes;
+
+const N_IDS: usize = 3;
+const N_KEYS: usize = 2;
+const N_ADDRS: usize = 2;
+
+struct VAuth { reg: Arc<IdentityRegistry>, base: Instant, vt: Arc<AtomicU64>, ids: [[u8; 32]; N_IDS] }
+impl SnapTunAuthorization for VAuth {
+    type SessionData = u64; // index of the identity whose session this is
+    fn is_authorized(&self, _now: Instant, identity: &[u8; 32]) -> Option<Arc<u64>> {
+        let t = self.base + Duration::from_secs(self.vt.load(Ordering::SeqCst));
+        // the registry's own SnapTunAuthorization implementation
+        <IdentityRegistry as SnapTunAuthorization>::is_authorized(&self.reg, t, identity)
+            .map(|_| Arc::new(self.ids.iter().position(|i| i == identity).map(|p| p as u64).unwrap_or(99)))
+    }
+}
+
+#[derive(Clone, Debug, PartialEq, Eq, Hash)]
+enum Ev { Register(usize, usize, u64), Advance(u64), Purge, Connect(usize, usize), DataIn(usize), DataOut(usize), Tick }
+
+fn scion_packet(body: [u8; 4]) -> Packet {
+    let p = Scion { header: ScionHeader::new(0, 0xAA, 0xABCDE, 4, IpNextProtocol::Udp, 7, 0x0123_4567_89AB_CDEF, 0xFEDC_BA98_7654_3210), payload: body };
+    Packet::copy_from(p.as_bytes())
+}
+
+struct World {
+    base: Instant, vt: Arc<AtomicU64>, reg: Arc<IdentityRegistry>, ids: [[u8; 32]; N_IDS], secrets: Vec<x25519::StaticSecret>,
+    server: SnapTunServer<VAuth>, server_pub: x25519::PublicKey, clients: Vec<Option<(usize, Tunn)>>, q: VecDeque<WgKind>,
+    counter: u32, out: Vec<String>, human: Vec<String>, stats: Vec<&'static str>,
+}
+fn addr_of(a: usize) -> SocketAddr { format!("192.168.1.{}:{}", a + 1, 1000 + a).parse().unwrap() }
+
+impl World {
+    fn new() -> Self {
+        let base = Instant::now();
+        let vt = Arc::new(AtomicU64::new(0));
+        let reg = Arc::new(IdentityRegistry::new());
+        let secrets: Vec<_> = (0..N_IDS).map(|i| x25519::StaticSecret::from([i as u8 + 1; 32])).collect();
+        let mut ids = [[0u8; 32]; N_IDS];
+        for i in 0..N_IDS { ids[i] = *x25519::PublicKey::from(&secrets[i]).as_bytes(); }
+        let server_secret = x25519::StaticSecret::from([77u8; 32]);
+        let server_pub = x25519::PublicKey::from(&server_secret);
+        let rl = Arc::new(RateLimiter::new(&server_pub, 1_000_000));
+        let authz = Arc::new(VAuth { reg: reg.clone(), base, vt: vt.clone(), ids });
+        let server = SnapTunServer::new(server_secret, rl, authz);
+        World { base, vt, reg, ids, secrets, server, server_pub, clients: (0..N_ADDRS).map(|_| None).collect(), q: VecDeque::new(),
+                counter: 0, out: vec![], human: vec![], stats: vec![] }
+    }
+    fn now(&self) -> Instant { self.base + Duration::from_secs(self.vt.load(Ordering::SeqCst)) }
+    fn answers(&self) -> String {
+        let now = self.now();
+        let a: Vec<String> = (0..N_IDS).map(|i| coq_bool(self.reg.has_authorization(now, &self.ids[i])).to_string()).collect();
+        let z: Vec<String> = (0..N_IDS).map(|i| coq_bool(self.reg.has_authorization(self.base, &self.ids[i])).to_string()).collect();
+        format!("{}, {}", coq_list(a), coq_list(z))
+    }
+    fn log(&mut self, ev: String, human: String) {
+        let ans = self.answers();
+        self.out.push(format!("({}, {})", ev, ans));
+        self.human.push(human);
+    }
+    fn next_body(&mut self) -> [u8; 4] { self.counter += 1; self.counter.to_be_bytes() }
+
+    /// one datagram from address `a` into the server; `model` is the toy packet it corresponds to
+    fn server_in(&mut self, a: usize, pkt: Packet, model: String, sent_body: Option<Vec<u8>>, what: &str) {
+        let before = self.q.len();
+        let r = self.server.handle_incoming_packet_with_session(pkt, addr_of(a), &mut self.q);
+        let ndata = self.q.iter().skip(before).filter(|k| matches!(k, WgKind::Data(_))).count();
+        let (fwd, attr, body) = match r {
+            HandleIncomingPacketResult::Forwarded { packet, session_data, .. } => {
+                let bytes: &[u8] = &packet[..];
+                let intact = sent_body.as_ref().map(|s| s.as_slice() == bytes).unwrap_or(false);
+                let body: Vec<u8> = if intact && bytes.len() >= 4 { bytes[bytes.len() - 4..].to_vec() } else { vec![] };
+                (true, *session_data, body)
+            }
+            HandleIncomingPacketResult::Result { .. } => (false, 0, vec![]),
+        };
+        self.stats.push(if fwd { "in.forwarded" } else { "in.not_forwarded" });
+        self.log(format!("HIn {} ({}) {} {} {} {}", a, model, coq_bool(fwd), attr, coq_bytes(&body), ndata),
+                 format!("{what}@a{a}->{}", if fwd { format!("FWD(id{attr})") } else { "no".into() }));
+        // deliver what the server queued for this address to the client tunnel there
+        let queued: Vec<WgKind> = self.q.drain(..).collect();
+        for k in queued {
+            let Some((c, tunn)) = self.clients[a].as_mut() else { continue };
+            let c = *c;
+            let is_resp = matches!(k, WgKind::HandshakeResp(_));
+            match tunn.handle_incoming_packet(k) {
+                TunnResult::WriteToNetwork(keepalive) if is_resp => {
+                    // the initiator confirms the session with a keepalive (empty data packet)
+                    let pkt: Packet = match keepalive { WgKind::Data(d) => d.into_bytes(), _ => continue };
+                    self.server_in(a, pkt, format!("TData {c} []"), None, "keepalive");
+                }
+                TunnResult::WriteToTunnel(_) => self.stats.push("queued_outbound_delivered"),
+                _ => {}
+            }
+        }
+    }
+
+    fn apply(&mut self, ev: &Ev) {
+        match *ev {
+            Ev::Register(k, id, l) => {
+                let now = self.now();
+                let was_new = self.reg.register(now, format!("k{k}"), self.ids[id], Duration::from_secs(l));
+                self.log(format!("HRegister {k} {id} {l} {}", coq_bool(was_new)), format!("reg(k{k},id{id},{l})={}", was_new));
+            }
+            Ev::Advance(d) => { self.vt.fetch_add(d, Ordering::SeqCst); self.log(format!("HAdvance {d}"), format!("+{d}s")); }
+            Ev::Purge => { let now = self.now(); self.reg.remove_expired(now); self.log("HPurge".into(), "purge".into()); }
+            Ev::Tick => { let _ = self.server.update_timers(); self.log("HTick".into(), "tick".into()); }
+            Ev::Connect(a, c) => {
+                // a fresh client tunnel at address a (replaces whatever client was there)
+                let rl = Arc::new(RateLimiter::new(&x25519::PublicKey::from(&self.secrets[c]), 1_000_000));
+                self.counter += 1;
+                let mut tunn = Tunn::new(self.secrets[c].clone(), self.server_pub, None, None, self.counter, rl, "10.0.0.1:5001".parse().unwrap());
+                let Some(init) = tunn.format_handshake_initiation(false) else { self.stats.push("connect.no_init"); return };
+                self.clients[a] = Some((c, tunn));
+                self.server_in(a, init.into_bytes(), format!("THandshake {c}"), None, &format!("connect(id{c})"));
+            }
+            Ev::DataIn(a) => {
+                let body = self.next_body();
+                let Some((c, tunn)) = self.clients[a].as_mut() else { self.stats.push("datain.no_client"); return };
+                let c = *c;
+                let plain = scion_packet(body);
+                let plain_bytes = plain[..].to_vec();
+                match tunn.encapsulate_with_session(plain) {
+                    Ok(data) => self.server_in(a, data.into_bytes(), format!("TData {c} {}", coq_bytes(&body)), Some(plain_bytes), &format!("data(id{c})")),
+                    Err(_) => self.stats.push("datain.client_has_no_session"),
+                }
+            }
+            Ev::DataOut(a) => {
+                let body = self.next_body();
+                let plain = scion_packet(body);
+                let plain_bytes = plain[..].to_vec();
+                let r = self.server.handle_outgoing_packet_with_session(plain, addr_of(a));
+                let (cls, attr, dec) = match r {
+                    None => (1u64, 0u64, None),
+                    Some(h) => {
+                        let attr = *h.session_data;
+                        match h.network_packet {
+                            Some(WgKind::Data(d)) => {
+                                let mut dec = None;
+                                if let Some((c, tunn)) = self.clients[a].as_mut() {
+                                    if let TunnResult::WriteToTunnel(p) = tunn.handle_incoming_packet(WgKind::Data(d)) {
+                                        if p[..] == plain_bytes[..] { dec = Some(*c as u64); }
+                                    }
+                                }
+                                (0, attr, dec)
+                            }
+                            _ => (3, attr, None),
+                        }
+                    }
+                };
+                self.stats.push(match cls { 0 => "out.encrypted", 3 => "out.queued", _ => "out.none" });
+                self.log(format!("HOut {} {} {} {} {}", a, coq_bytes(&body), cls, attr, coq_opt(dec.map(|d| d.to_string()))),
+                         format!("out@a{a}->{}", match cls { 0 => format!("DATA(id{attr})"), 3 => format!("queued(id{attr})"), _ => "none".into() }));
+            }
+        }
+    }
+}
+
+fn alphabet() -> Vec<Ev> {
+    let mut v = vec![];
+    for k in 0..N_KEYS { for id in 0..N_IDS { for l in [0u64, 5, 10] { v.push(Ev::Register(k, id, l)); } } }
+    for d in [5u64, 10] { v.push(Ev::Advance(d)); }
+    v.push(Ev::Purge);
+    for a in 0..N_ADDRS { for c in 0..N_IDS { v.push(Ev::Connect(a, c)); } }
+    for a in 0..N_ADDRS { v.push(Ev::DataIn(a)); v.push(Ev::DataOut(a)); }
+    v.push(Ev::Tick);
+    v
+}
+
+fn random_event(rng: &mut Rng) -> Ev {
+    match rng.below(100) {
+        0..=24 => Ev::Register(rng.below(N_KEYS as u64) as usize, rng.below(N_IDS as u64) as usize, *rng.pick(&[0u64, 3, 5, 10, 30])),
+        25..=39 => Ev::Advance(*rng.pick(&[1u64, 2, 5, 10])),
+        40..=46 => Ev::Purge,
+        47..=61 => Ev::Connect(rng.below(N_ADDRS as u64) as usize, rng.below(N_IDS as u64) as usize),
+        62..=79 => Ev::DataIn(rng.below(N_ADDRS as u64) as usize),
+        80..=94 => Ev::DataOut(rng.below(N_ADDRS as u64) as usize),
+        _ => Ev::Tick,
+    }
+}
+
+/// directed histories named in the property's "why tests can't"
+fn directed() -> Vec<(&'static str, Vec<Ev>)> {
+    use Ev::*;
+    vec![
+        ("lapse between handshake and first data", vec![Register(0, 0, 5), Connect(0, 0), Advance(5), DataIn(0), DataOut(0)]),
+        ("data flows both ways while registered", vec![Register(0, 0, 10), Connect(0, 0), DataIn(0), DataOut(0), DataIn(0)]),
+        ("lapse, then re-registration revives the persisted tunnel", vec![Register(0, 0, 5), Connect(0, 0), DataIn(0), Advance(5), DataIn(0), DataOut(0), Register(0, 0, 5), DataIn(0), DataOut(0)]),
+        ("re-registration with a shorter lifetime", vec![Register(0, 0, 30), Connect(0, 0), DataIn(0), Register(0, 0, 5), Advance(5), DataIn(0), DataOut(0)]),
+        ("superseded by another identity under the same key", vec![Register(0, 0, 30), Connect(0, 0), DataIn(0), Register(0, 1, 30), DataIn(0), DataOut(0), Connect(1, 1), DataIn(1)]),
+        ("identity moved to another key, old key reused", vec![Register(0, 0, 30), Register(1, 0, 30), Register(0, 1, 30), Connect(0, 0), DataIn(0), Connect(1, 1), DataIn(1)]),
+        ("purge removes, then registration is new again", vec![Register(0, 0, 5), Advance(5), Purge, Register(0, 0, 5), Connect(0, 0), DataIn(0)]),
+        ("second client on the same address", vec![Register(0, 0, 30), Register(1, 1, 30), Connect(0, 0), DataIn(0), Connect(0, 1), DataIn(0), DataOut(0)]),
+        ("second client on a different address", vec![Register(0, 0, 30), Register(1, 1, 30), Connect(0, 0), Connect(1, 1), DataIn(0), DataIn(1), DataOut(0), DataOut(1)]),
+        ("outbound queued before confirmation, drained by first data", vec![Register(0, 0, 30), Connect(0, 0), DataOut(0), DataOut(0), DataIn(0)]),
+        ("outbound queued, identity lapses before the drain", vec![Register(0, 0, 5), Connect(0, 0), DataOut(0), Advance(5), DataIn(0), Register(0, 0, 5), DataIn(0)]),
+        ("unregistered identity cannot connect", vec![Connect(0, 2), DataIn(0), DataOut(0), Register(0, 2, 10), Connect(0, 2), DataIn(0)]),
+        ("zero lifetime", vec![Register(0, 0, 0), Connect(0, 0), Purge, Register(0, 0, 0)]),
+        ("timer ticks keep the tunnel", vec![Register(0, 0, 30), Connect(0, 0), Tick, Tick, DataIn(0), Tick, DataOut(0)]),
+        ("same identity on two addresses", vec![Register(0, 0, 30), Connect(0, 0), Connect(1, 0), DataIn(0), DataIn(1), Advance(30), DataIn(0), DataIn(1)]),
+    ]
+}
+
+fn main() {
+    silence_panics();
+    let out = arg("--out").expect("--out");
+    let n: usize = arg("--n").and_then(|x| x.parse().ok()).unwrap_or(400);
+    let thorough = std::env::var("VERIF_TIER").map(|t| t == "thorough").unwrap_or(false);
+    let mut rng = Rng::new(seed_from_env());
+    let mut sh = Shards::new(&out, "From Sci Require Import Snap.Cases_C09.\nOpen Scope N_scope.", "rcase", "verdicts", 60);
+    let mut sum = Summary::default();
+    let mut seen: HashSet<Vec<Ev>> = HashSet::new();
+    let alpha = alphabet();
+
+    let mut histories: Vec<(String, Vec<Ev>)> = directed().into_iter().map(|(l, h)| (format!("directed: {l}"), h)).collect();
+    // exhaustive short histories: all of length 1 and 2 (thorough) or a seeded sample (quick), then samples of length 3..4
+    let k = alpha.len();
+    let mut short: Vec<Vec<Ev>> = vec![];
+    for i in 0..k { short.push(vec![alpha[i].clone()]); }
+    for i in 0..k { for j in 0..k { short.push(vec![alpha[i].clone(), alpha[j].clone()]); } }
+    if thorough {
+        for i in 0..k { for j in 0..k { for l in 0..k { if matches!(alpha[i], Ev::Register(..)) { short.push(vec![alpha[i].clone(), alpha[j].clone(), alpha[l].clone()]); } } } }
+    } else {
+        rng.shuffle(&mut short); short.truncate(n / 4);
+    }
+    for h in short { histories.push(("exhaustive-short".into(), h)); }
+    let n_short3 = if thorough { n / 3 } else { n / 4 };
+    for _ in 0..n_short3 {
+        let len = rng.range(3, 6) as usize;
+        histories.push(("sampled-short".into(), (0..len).map(|_| rng.pick(&alpha).clone()).collect()));
+    }
+    while histories.len() < n {
+        let len = rng.range(6, 40) as usize;
+        histories.push(("random".into(), (0..len).map(|_| random_event(&mut rng)).collect()));
+    }
+
+    let ids = coq_list((0..N_IDS).map(|i| i.to_string()));
+    let mut events_total = 0u64;
+    for (kind, h) in &histories {
+        let r = std::panic::catch_unwind(std::panic::AssertUnwindSafe(|| { let mut w = World::new(); for e in h { w.apply(e); } w }));
+        let w = match r { Ok(w) => w, Err(_) => { // an implementation panic: a case the model cannot agree with
+            sh.push(format!("mkRCase {ids} [(HTick, [], [])]")); sum.count("impl_panic"); sum.index.push(format!("[{kind}] PANIC in {:?}", h)); continue; } };
+        sh.push(format!("mkRCase {ids} {}", coq_list(w.out.iter().cloned())));
+        events_total += w.out.len() as u64;
+        sum.count(&format!("kind.{}", kind.split(':').next().unwrap()));
+        for s in &w.stats { sum.count(s); }
+        let human = format!("[{kind}] {}", w.human.join(" ; "));
+        if sum.samples.len() < 3 && kind.starts_with("directed") { sum.samples.push(human.clone()); }
+        sum.index.push(human);
+        seen.insert(h.clone());
+    }
+    sh.flush();
+    sum.add("observations_total", events_total);
+    sum.add("alphabet_size", k as u64);
+    sum.write(&out, sh.total, seen.len());
+}
